@@ -9842,6 +9842,9 @@ def _write_node(node, xml_tree=None, viewport_transform=None):
     elif isinstance(node, Use):
         # While Use elements are originally their own thing it can't be restored.
         xml_tree = subxml(xml_tree, SVG_TAG_GROUP)
+        for key in (SVG_ATTR_X, SVG_ATTR_Y, SVG_ATTR_WIDTH, SVG_ATTR_HEIGHT, SVG_HREF, "xlink:href"):
+            # Attributes of the use element mean nothing on the g that replaces it (and would be inherited).
+            xml_tree.attrib.pop(key, None)
         for child in node:
             _write_node(child, xml_tree, viewport_transform)
     elif isinstance(node, Group):
